@@ -45,7 +45,14 @@ fn norm(uri: &str) -> String {
 }
 
 pub fn run_tree(ctx: &mut Ctx, bytes: &[u8]) -> Result<bool, Failure> {
-    let case = json!({"stream": hex(bytes)});
+    run_tree_mode(ctx, bytes, false)
+}
+
+/// `rename_mode` (C08's stage against the real server): besides prepareRename, `textDocument/rename`
+/// itself is sent for the same occurrences: refused for symbols of build/packages, and an accepted
+/// rename never carries an edit for a file under build/packages.
+pub fn run_tree_mode(ctx: &mut Ctx, bytes: &[u8], rename_mode: bool) -> Result<bool, Failure> {
+    let case = json!({"stream": hex(bytes), "rename_mode": rename_mode});
     let mut c = Choices::new(bytes);
     let cfg = Cfg { force_packages: c.chance(200), ..Cfg::default() };
     let (mut sw, _) = scoped::gen_workspace(&mut c, &cfg);
@@ -208,6 +215,20 @@ pub fn run_tree(ctx: &mut Ctx, bytes: &[u8]) -> Result<bool, Failure> {
             }
             if external {
                 ctx.class("prepareRename refused for build/packages symbol");
+            }
+            if rename_mode {
+                ctx.eval();
+                let new_name = if o.text.chars().next().map(|ch| ch.is_uppercase()).unwrap_or(false) { "Zq9x" } else { "zq9x" };
+                let rn = lsp.call("textDocument/rename", json!({"textDocument": {"uri": uri(o.file)}, "position": {"line": pos.line, "character": pos.col}, "newName": new_name}), Duration::from_secs(20));
+                let Some(rn) = rn else { return Err(fail(lsp, "no answer to rename".into(), "no-answer")) };
+                let text = rn.to_string();
+                if external && rn.get("error").is_none() {
+                    return Err(fail(lsp, format!("rename accepts `{}`, which is defined in the external package file {}: {}", o.text, sw.ws.files[decl.file].path, clip(&text, 300)), "external-editable"));
+                }
+                if rn.get("error").is_none() && text.contains("/build/packages/") {
+                    return Err(fail(lsp, format!("renaming the local symbol `{}` edits a file under build/packages: {}", o.text, clip(&text, 400)), "edits-dependency"));
+                }
+                ctx.class(if external { "rename refused for build/packages symbol" } else { "rename of a local symbol leaves dependencies alone" });
             }
         }
     }
